@@ -361,23 +361,50 @@ def r_pure_match(ck: Checker) -> None:
         ck.holds("R-PURE-MATCH", (mods[0].rel, "*._match"), None, "no _match/match body stores state or mutates the matcher / the caller's context")
     # cache discipline
     fp = ck.repo.func(PAT, "NodeMatcher.from_pattern")
-    stores = [st for st in fp.node.body if isinstance(st, ast.Assign) and isinstance(st.targets[0], ast.Subscript) and norm(st.targets[0].value) == "_MATCHER_CACHE"]
-    nested = [st for st in walk_body(fp.node.body) if isinstance(st, ast.Assign) and isinstance(st.targets[0], ast.Subscript) and norm(st.targets[0].value) == "_MATCHER_CACHE"]
     what = "the pattern cache is keyed by the full pattern text and filled only on the success path"
     p = fp.node.args.args[1].arg
-    ok = len(stores) == 1 and len(nested) == 1 and norm(stores[0].targets[0].slice) == p
-    if ok:
-        # all handlers before the store return
-        idx = fp.node.body.index(stores[0])
-        for st in fp.node.body[:idx]:
-            if isinstance(st, ast.Try):
-                for h in st.handlers:
-                    if not isinstance(h.body[-1], (ast.Return, ast.Raise)):
-                        ok = False
-        first = [st for st in fp.node.body if isinstance(st, ast.If)]
-        ok = ok and bool(first) and norm(first[0].test) == f"{p} in _MATCHER_CACHE" and isinstance(first[0].body[0], ast.Return) \
-            and (_tuple_ret(first[0].body[0].value) or ("", ""))[0] == f"_MATCHER_CACHE[{p}]"
-    (ck.holds if ok else ck.violation)("R-PURE-MATCH", fp, fp.node, what, **({} if ok else {"construct": "from_pattern: cache discipline not recognised / wrong"}))
+    fbody = strip_docstring(fp.node.body)
+    leaves = decision_tree(fbody, try_as_body=True)
+    k_hit = f"in({p},_MATCHER_CACHE)"
+    bad = None
+    n_store = 0
+    for st in fbody:  # a rejecting handler must leave, or the failure would reach the store
+        if isinstance(st, ast.Try):
+            for h in st.handlers:
+                if not isinstance(h.body[-1], (ast.Return, ast.Raise)):
+                    bad = "a handler of the compilation ladder falls through towards the cache store"
+    for lf in leaves:
+        sts = [x for x in lf.stmts if isinstance(x, ast.Assign) and isinstance(x.targets[0], ast.Subscript) and norm(x.targets[0].value) == "_MATCHER_CACHE"]
+        other = [c for x in lf.stmts for c in ast.walk(x) if isinstance(c, ast.Call) and norm(c.func).startswith("_MATCHER_CACHE.") and c.func.attr in ("setdefault", "update", "__setitem__")]
+        if other:
+            raise Unsupported(f"from_pattern fills the cache with {norm(other[0])[:40]}", fp.node)
+        if k_hit not in lf.assign:
+            if sts or lf.outcome == "return":
+                bad = bad or "the cache is not consulted first"
+            continue
+        if lf.assign[k_hit]:
+            t = _tuple_ret(lf.value) if lf.outcome == "return" else None
+            if sts or t is None or t[0] != f"_MATCHER_CACHE[{p}]":
+                bad = bad or f"cache hit: {lf.outcome} {lf.val()}"
+            continue
+        for x in sts:
+            n_store += 1
+            if norm(x.targets[0].slice) != p:
+                bad = bad or f"cache key is {norm(x.targets[0].slice)[:40]}, not the full pattern text"
+            v = x.value
+            if isinstance(v, ast.Name):
+                defs = [d for d in lf.stmts if isinstance(d, ast.Assign) and any(isinstance(n_, ast.Name) and n_.id == v.id for t_ in d.targets for n_ in ast.walk(t_))]
+                from_helper = any(isinstance(d.value, ast.Call) and isinstance(d.value.func, ast.Name) and ck.repo.is_new_helper(fp.mod, d.value.func.id) for d in defs)
+                if from_helper and lf.assign.get(k_none(v.id)) is not False:
+                    flags = [k for k, val in lf.assign.items() if val is True and k.isidentifier()]
+                    if not flags:
+                        raise Unsupported("from_pattern: the stored matcher comes from a helper and is not tested before the store", fp.node)
+            rt = _tuple_ret(lf.value) if lf.outcome == "return" else None
+            if rt is None or rt[0] not in (norm(v), f"_MATCHER_CACHE[{p}]"):
+                bad = bad or f"the stored matcher is not the one returned ({lf.val()})"
+    if not bad and n_store == 0:
+        bad = "no path stores the compiled matcher"
+    (ck.holds if not bad else ck.violation)("R-PURE-MATCH", fp, fp.node, what, **({"evaluations": len(leaves)} if not bad else {"construct": f"from_pattern: {bad}"}))
 
 
 def r_multi_order(ck: Checker) -> None:
